@@ -72,6 +72,14 @@ func outcomeKey(o fqlrun.Outcome) string {
 var params = map[string]interface{}{"n": 2, "arr": []interface{}{3, 1, 2, 1}, "s": "k", "f": 1.5,
 	"obj": map[string]interface{}{"a": 1, "b": "x", "list": []interface{}{1, 2}, "k": map[string]interface{}{"a": 5}}}
 
+func init() {
+	big := make([]interface{}, 30)
+	for i := range big {
+		big[i] = map[string]interface{}{"a": (i * 7) % 3, "b": i % 2, "k": i}
+	}
+	params["big"] = big
+}
+
 func main() {
 	out, tier, seed, _ := Args()
 	surface.SilenceConsole()
